@@ -215,16 +215,25 @@ def corrupt_selftest(ctx, trace):
     n0, v0 = thrlib.validate_traces(ctx, [trace], "c07_selftest_orig")
     if any(x[0].startswith("c07.outwait") for x in v0):
         return          # not an accepted trace (mutated tree): nothing to show
+    # the deadline observation is moved into the send's critical section (before the wake is
+    # written) and every later event of the event thread is delayed by 5 s
+    dl = [ln for ln in lines if '"k":"dl"' in ln and json.loads(ln).get("id") == 0]
     out = []
     state = 0
     for ln in lines:
         j = json.loads(ln)
-        if state == 0 and j.get("k") == "dl" and j.get("id") == 0:
+        if dl and ln == dl[0]:
+            continue
+        if state == 0 and j.get("k") == "call" and j.get("api") == "send":
             state = 1
-        elif state == 1 and j.get("t") == ev and "ms" in j:
+        elif state == 1 and j.get("k") == "lock" and j.get("m") == "chan" and j.get("t") != ev and dl:
+            out.append(ln)
+            out.append(dl[0])
+            state = 2
+            continue
+        elif state == 2 and j.get("t") == ev and "ms" in j:
             j["ms"] += 5000
             ln = json.dumps(j) + "\n"
-            state = 2
         out.append(ln)
     if state != 2:
         raise vlib.MachineryError("C07 corruption self-test: no place to corrupt in %s" % trace)
@@ -237,5 +246,40 @@ def corrupt_selftest(ctx, trace):
     ctx.notes["corrupted_trace_selftest"] = {"event_thread_first_event_after_send_delayed_5s": rules}
 
 
+def replay(ctx):
+    """--replay: a JSON file with "cmd": "verif_thr c07 --backend B --reuse R --phase P" (re-executed
+    against the current tree), or an ndjson trace (re-validated by TLC)."""
+    txt = open(ctx.replay).read()
+    exe = ctx.build_harness("thr", flavor="plain")
+    if txt.lstrip().startswith('{"k":'):
+        n, viols = thrlib.validate_traces(ctx, [ctx.replay], "replay")
+        ctx.cov["traces_validated_against_impl"] += n
+        for (rule, label, line, ctxt) in viols:
+            ctx.violation("c07.trace.%s" % rule, "replayed trace %s: rule %s at line %d\n%s" % (label, rule, line, ctxt),
+                          replay_path=ctx.replay)
+        return
+    j = json.loads(txt)
+    a = j.get("cmd", "").split()
+    opt = {a[i]: a[i + 1] for i in range(len(a) - 1) if a[i].startswith("--")}
+    b, r, p = opt.get("--backend", "epoll"), opt.get("--reuse", "idle"), opt.get("--phase", "inwait")
+    res = scenario(exe, ctx, b, r, p, attempt=9)
+    ctx.log("replay result: %s" % json.dumps({k: v for k, v in res.items() if k != "key"}))
+    ctx.cov["evaluations"] += 1
+    if res.get("result") == "c07" and res["setup_ok"] and not res["completed"]:
+        sig = ("c07.evthread.idle_reuse.nowake.%s" % p) if r == "idle" else ("c07.evthread.%s.never.%s" % (r, p))
+        ctx.violation(sig, "replay: no callback within %d ms" % res["limit_ms"], replay_path=ctx.replay)
+    n, viols = thrlib.validate_traces(ctx, [res["trace"]], "replay")
+    ctx.cov["traces_validated_against_impl"] += n
+    for (rule, label, line, ctxt) in viols:
+        sig = {"c07.outwait.never": ("c07.evthread.idle_reuse.nowake.%s" % p) if r == "idle" else "c07.evthread.%s.never.%s" % (r, p),
+               "c07.outwait.late": "c07.evthread.%s.late.%s" % (r, p)}.get(rule, "c07.trace.%s" % rule)
+        ctx.violation(sig, "replay: trace rule %s at line %d\n%s" % (rule, line, ctxt), replay_path=ctx.replay)
+    ctx.cov["states"] = max(ctx.cov["states"], 1)
+    ctx.cov["transitions"] = max(ctx.cov["transitions"], 1)
+    ctx.sample({k: v for k, v in res.items() if k not in ("key", "trace")})
+
+
 def run(ctx):
+    if ctx.replay:
+        return replay(ctx)
     run_threaded(ctx)
